@@ -397,4 +397,23 @@ __CPROVER_ensures(!nv_thrown ==> (self->m_parameters.n == NV_OLD(self->m_paramet
 __CPROVER_ensures((!nv_thrown && 0 <= nv_g_par && nv_g_par < self->m_parameters.n - 1) ==> NV_NAME_AT(self->m_parameters, nv_g_par) != parameter.m_name.id) \
 __CPROVER_ensures(self->m_parameters.p == NV_OLD(self->m_parameters.p))
 
+/* ------------------------------------------------------------------ parameter_t::operator=(tenum)  (header template)
+ * an enumeration parameter takes the enum's name (scat(value): ASSUMED a deterministic function of the enumerator,
+ * uninterpreted) through operator=(string) -- replaced by its contract proved above; any other kind throws. */
+int64_t __CPROVER_uninterpreted_scat_enum(int64_t);
+static struct nv_str nv_scat_enum(int64_t v) { struct nv_str s; s.id = __CPROVER_uninterpreted_scat_enum(v); return s; }
+#define NV_SCAT(v) ((struct nv_str){__CPROVER_uninterpreted_scat_enum((int64_t)(v))})
+#define NV_CONTRACT_parameter_assign_enum \
+__CPROVER_requires(!nv_thrown && __CPROVER_is_fresh(self, sizeof(*self)) && NV_ST_WF(self->m_storage)) \
+__CPROVER_requires(self->m_storage.index != 1 || NV_STRS_OK(self->m_storage.a1.m_domain)) \
+__CPROVER_assigns(nv_thrown, nv_w_find, self->m_storage.a1.m_value, self->m_storage.a2.m_value, self->m_storage.a3.m_value, \
+                  self->m_storage.a4.m_value1, self->m_storage.a4.m_value2, self->m_storage.a5.m_value1, self->m_storage.a5.m_value2, \
+                  self->m_storage.a6) \
+__CPROVER_ensures(self->m_storage.index == NV_OLD(self->m_storage.index) && self->m_name.id == NV_OLD(self->m_name.id)) \
+__CPROVER_ensures(!nv_thrown ==> __CPROVER_return_value == self) \
+NV_POST_ENUM(self->m_storage.index == 1, self->m_storage.a1, NV_SCAT(value)) \
+__CPROVER_ensures(self->m_storage.index != 1 ==> (nv_thrown && self->m_storage.a1.m_value.id == NV_OLD(self->m_storage.a1.m_value.id))) \
+__CPROVER_ensures(NV_SAME_R(NV_EQ_I, self->m_storage.a2) && NV_SAME_R(NV_EQ_F, self->m_storage.a3) && NV_SAME_P(NV_EQ_I, self->m_storage.a4) && \
+                  NV_SAME_P(NV_EQ_F, self->m_storage.a5) && self->m_storage.a6.id == NV_OLD(self->m_storage.a6.id))
+
 #endif
